@@ -74,6 +74,10 @@ package regprocessor
 //@   ensures @C13: !held(&p.selectorMutex) && rheld(&p.selectorMutex) == 0
 //@   ensures @C13: result != nil ==> p.ipSelector == old(p.ipSelector)
 //@   atcall GetPhantomSubnetSelector before: assert @C13: !held(&p.selectorMutex)
+// "... and the reloads complete as well": a reload that reports success HAS installed the set it loaded (a reload that
+// gives up when the lock is busy - any request in flight holds it shared - would report success and change nothing)
+//@   atcall GetPhantomSubnetSelector after: snap loaded := res0
+//@   ensures @C13: result == nil ==> defined(loaded) && p.ipSelector == box(loaded)
 
 // ---------------- C12 helpers ----------------
 
